@@ -4,6 +4,7 @@ import (
 	"archive/zip"
 	"bytes"
 	"errors"
+	"fmt"
 	"io"
 	"net/url"
 	"path"
@@ -11,6 +12,7 @@ import (
 
 	"github.com/tsawler/tabula/htmldoc"
 	"github.com/tsawler/tabula/model"
+	"github.com/tsawler/tabula/rag"
 )
 
 // Reader-related errors.
@@ -303,6 +305,51 @@ func (r *Reader) MarkdownWithOptions(opts ExtractOptions) (string, error) {
 	}
 
 	return strings.Join(parts, "\n\n---\n\n"), nil
+}
+
+// MarkdownWithRAGOptions extracts content as markdown like MarkdownWithOptions
+// and applies the RAG markdown options the way the other formats do: heading
+// levels are shifted by HeadingLevelOffset and capped at MaxHeadingLevel, and
+// IncludeMetadata writes a front matter block with the publication's title
+// and authors.
+func (r *Reader) MarkdownWithRAGOptions(opts ExtractOptions, mdOpts rag.MarkdownOptions) (string, error) {
+	htmlOpts := htmldoc.ExtractOptions{
+		NavigationExclusion: htmldoc.NavigationExclusionMode(opts.NavigationExclusion),
+	}
+	chapterOpts := mdOpts
+	chapterOpts.IncludeMetadata = false
+	chapterOpts.IncludeTableOfContents = false
+
+	var parts []string
+	for _, chapter := range r.chapters {
+		htmlReader, err := htmldoc.OpenReader(bytes.NewReader(chapter.Content))
+		if err != nil {
+			continue
+		}
+
+		md, err := htmlReader.MarkdownWithRAGOptions(htmlOpts, chapterOpts)
+		if err != nil {
+			continue
+		}
+
+		if md = strings.TrimSpace(md); md != "" {
+			parts = append(parts, md)
+		}
+	}
+
+	var result strings.Builder
+	if mdOpts.IncludeMetadata {
+		result.WriteString("---\n")
+		if meta := r.pkg.Metadata; meta.Title != "" {
+			result.WriteString(fmt.Sprintf("title: %q\n", meta.Title))
+		}
+		if creators := r.pkg.Metadata.Creator; len(creators) > 0 {
+			result.WriteString(fmt.Sprintf("author: %q\n", strings.Join(creators, ", ")))
+		}
+		result.WriteString("---\n\n")
+	}
+	result.WriteString(strings.Join(parts, "\n\n---\n\n"))
+	return result.String(), nil
 }
 
 // Document returns the document model.
